@@ -87,6 +87,36 @@ S("boxed", "box_into_flattened", ["C16", "C06"], "BumpBox<[[E;2]]>::into_flatten
 S("boxed", "box_single_routes", ["C06"], "BumpBox<E>: drop / into_inner / leak / into_raw+from_raw")
 S("boxed", "box_zst_ops", ["C06", "C08", "C16"], "zero-sized elements: pop/truncate/remove/swap_remove/split_off/clear")
 
+S("fixed", "fixed_try_push", ["C08", "C06", "C07"], "FixedBumpVec::try_push on every state (full => Err, value consumed once)")
+S("fixed", "fixed_try_insert", ["C08", "C06", "C07"], "FixedBumpVec::try_insert(i, x), i <= len")
+S("fixed", "fixed_remove_ops", ["C08", "C06"], "remove / swap_remove / pop / pop_if")
+S("fixed", "fixed_truncate_clear", ["C08", "C06"], "truncate(n) / clear")
+S("fixed", "fixed_extend_clone", ["C08", "C07"], "try_extend_from_slice_clone / try_extend_from_within_clone / try_resize (0..2 new elements)")
+S("fixed", "fixed_append", ["C06", "C08", "C07"], "try_append(BumpBox<[E]>) with 0..2 elements: ownership hand-over, all-or-nothing")
+S("fixed", "fixed_split_off", ["C16", "C08"], "FixedBumpVec::split_off prefix/suffix/empty/full: partition, capacities add up, parts independent")
+S("fixed", "fixed_split_off_interior", ["C16", "C08"], "FixedBumpVec::split_off interior ranges (4 concrete shapes)")
+S("fixed", "fixed_split_at_spare", ["C16"], "split_at_spare")
+S("fixed", "fixed_try_reserve", ["C07", "C08"], "try_reserve(additional), any usize")
+S("fixed", "fixed_zst_capacity", ["C08", "C06"], "zero-sized elements: capacity usize::MAX, 0..3 pushes")
+
+
+def P(name, props, inst, expect):
+    H("kani-slice", "panics::%s" % name, props, kind="must_panic", expect_fail=expect, stubbing=True, bounds=SLB, inst=inst, unwind=10, timeout_s=600, mem_gb=3,
+      note=SL_STUBS + "; std ptr_rotate stubbed by a failing assertion (never reached on a panicking path)")
+
+
+P("panic_box_remove_oob", ["C08"], "BumpBox<[E]>::remove(i), every i >= len", [r"remove::assert_failed"])
+P("panic_box_swap_remove_oob", ["C08"], "swap_remove(i), every i >= len", [r"swap_remove::assert_failed"])
+P("panic_box_split_off_bad_range", ["C08", "C16"], "split_off(s..e), every s > e or e > len", [r"slice_index_order_fail|slice_end_index_len_fail"])
+P("panic_box_split_at_oob", ["C08", "C16"], "split_at(at), every at > len", [r"split_at::assert_failed"])
+P("panic_box_drain_bad_range", ["C08"], "drain(s..e), every invalid range", [r"slice_index_order_fail|slice_end_index_len_fail"])
+P("panic_box_merge_not_adjacent", ["C16"], "merge(right, left) of the two halves of every split", [r"merge::assert_failed"])
+P("panic_fixed_push_full", ["C08", "C07"], "FixedBumpVec::push on a full vector", [r"fixed_size_vector_is_full"])
+P("panic_fixed_insert_oob", ["C08"], "insert(i, x), every i > len", [r"generic_insert_mut::assert_failed"])
+P("panic_fixed_remove_oob", ["C08"], "FixedBumpVec::remove / swap_remove, every i >= len", [r"remove::assert_failed"])
+P("panic_fixed_extend_from_within_oob", ["C08"], "extend_from_within_clone(s..e), every invalid range", [r"slice_index_order_fail|slice_end_index_len_fail"])
+S("panics", "nopanic_box_in_range", ["C08"], "in-range remove / swap_remove / drain never reach a panic")
+
 
 def for_property(pid, tier):
     out = []
